@@ -86,6 +86,45 @@ fn battery_lines(b: &[(String, Expr)], reverse: bool) -> Vec<String> {
     lines
 }
 
+/// a small ruleset whose user functions fail in different ways; the lines hold the outcome texts a
+/// caller would log (`Display` of the error, of its source chain, and its `Debug` class only)
+fn failing_ruleset_lines() -> Vec<String> {
+    use crate::checks::probe::{probe, Handler};
+    use std::collections::BTreeMap;
+    let h: Handler = std::sync::Arc::new(|name, p| {
+        let r = match name {
+            "plain" => Err(anyhow::anyhow!("backend said no to {p}")),
+            "chained" => Err(anyhow::Error::new(std::io::Error::new(std::io::ErrorKind::NotFound, "no such record")).context("looking up the customer")),
+            "typed" => Err(anyhow::Error::new(reval::Error::DivisionByZero)),
+            _ => Ok(p),
+        };
+        (r, 0)
+    });
+    let build = || -> reval::Result<RuleSet> {
+        Ok(ruleset()
+            .with_rule(Rule::new("a", BTreeMap::new(), Expr::func("plain", Expr::value(1i128))))?
+            .with_rule(Rule::new("b", BTreeMap::new(), Expr::func("chained", Expr::value("x"))))?
+            .with_rule(Rule::new("c", BTreeMap::new(), Expr::add(Expr::func("typed", Expr::value(2i128)), Expr::value(1i128))))?
+            .with_rule(Rule::new("d", BTreeMap::new(), Expr::func("fine", Expr::value(3i128))))?
+            .with_function(probe("plain", false, &h))?
+            .with_function(probe("chained", true, &h))?
+            .with_function(probe("typed", false, &h))?
+            .with_function(probe("fine", false, &h))?
+            .build())
+    };
+    let rs = match build() {
+        Ok(r) => r,
+        Err(e) => return vec![format!("failing ruleset => MACHINERY {e}")],
+    };
+    let r = std::panic::catch_unwind(std::panic::AssertUnwindSafe(|| block_on(rs.evaluate_value(&Value::None))));
+    match r {
+        Ok(Ok(Ok(out))) => out.iter().map(|o| format!("rule {} => {}", o.rule.name(), show(&o.value)).replace('\n', "\\n")).collect(),
+        Ok(Ok(Err(e))) => vec![format!("failing ruleset => Err({e})")],
+        Ok(Err(m)) => vec![format!("failing ruleset => MACHINERY {m}")],
+        Err(_) => vec!["failing ruleset => PANIC".to_string()],
+    }
+}
+
 /// C12: the outcome of an evaluation does not depend on which evaluations the process made before
 pub fn history_leg(acc: &mut Acc, thorough: bool) -> usize {
     let b = battery(thorough);
@@ -123,6 +162,8 @@ fn environments(thorough: bool) -> Vec<(&'static str, Vec<(&'static str, &'stati
         ("TZ=:/nonexistent", vec![("TZ", ":/nonexistent")], false),
         ("LC_ALL=tr_TR.UTF-8", vec![("LC_ALL", "tr_TR.UTF-8"), ("LANG", "tr_TR.UTF-8")], false),
         ("empty environment", vec![], true),
+        ("RUST_BACKTRACE=1", vec![("RUST_BACKTRACE", "1"), ("RUST_LIB_BACKTRACE", "1")], false),
+        ("RUST_BACKTRACE=0", vec![("RUST_BACKTRACE", "0"), ("RUST_LIB_BACKTRACE", "0")], false),
     ];
     if thorough {
         v.extend([
@@ -140,7 +181,8 @@ fn environments(thorough: bool) -> Vec<(&'static str, Vec<(&'static str, &'stati
 /// C12: nor on the environment of the process
 pub fn environment_leg(acc: &mut Acc, thorough: bool) -> usize {
     let b = battery(thorough);
-    let here = battery_lines(&b, false);
+    let mut here = battery_lines(&b, false);
+    here.extend(failing_ruleset_lines());
     let exe = match std::env::current_exe() {
         Ok(e) => e,
         Err(e) => {
@@ -158,7 +200,6 @@ pub fn environment_leg(acc: &mut Acc, thorough: bool) -> usize {
         for (k, v) in vars {
             cmd.env(k, v);
         }
-        cmd.env("RUST_LIB_BACKTRACE", "0");
         let out = match cmd.output() {
             Ok(o) => o,
             Err(e) => {
@@ -171,6 +212,7 @@ pub fn environment_leg(acc: &mut Acc, thorough: bool) -> usize {
         let text = String::from_utf8_lossy(&out.stdout);
         let there: Vec<&str> = text.lines().collect();
         if !out.status.success() || there.len() != here.len() {
+            // (the line count includes the failing-ruleset lines)
             acc.violation(Violation {
                 sig: "environment/child-failed".into(),
                 what: format!("the battery of {} evaluations in a child process with {label}: exit {:?}, {} lines; stderr: {}", b.len(), out.status.code(), there.len(), String::from_utf8_lossy(&out.stderr).chars().take(300).collect::<String>()),
@@ -340,7 +382,8 @@ pub fn child(args: &[String]) -> ! {
         Some("c12-env") => {
             let thorough = args.get(1).map(|s| s == "thorough").unwrap_or(false);
             let b = battery(thorough);
-            let lines = battery_lines(&b, false);
+            let mut lines = battery_lines(&b, false);
+            lines.extend(failing_ruleset_lines());
             let stdout = std::io::stdout();
             let mut w = std::io::BufWriter::new(stdout.lock());
             for l in lines {
